@@ -106,6 +106,21 @@ class OrderedUnk(Unk):
     __slots__ = ("reverse",)
 
 
+class ClassV(Unk):
+    """A class of the package used as a value (handed to a generic builder: `read(BaseWorker, BaseWorkerState, keys, record)`)."""
+    __slots__ = ("cls",)
+
+
+class RepeatV(Unk):
+    """`itertools.repeat(x)`: endlessly the value of `node` (evaluated where it was written)."""
+    __slots__ = ("node", "val")
+
+
+class IterV(Unk):
+    """`iter(xs)`: an iterator over the collection written as `src` (value `val` when it was taken)."""
+    __slots__ = ("src", "val")
+
+
 class MapV(Unk):
     """`[elt(x) for x in coll]` over a collection known only abstractly: unknown as a list, but element i is elt(coll[i]) as
     long as nothing the expression reads has been written since (`mark`)."""
@@ -136,11 +151,12 @@ class CollV:
     """A collection known only through what holds for all of its elements: `base` is the access
     path (or tag) of the collection it was drawn from, `preds` a list of (param name, test expr)
     that every element satisfies (filter lambdas, comprehension conditions)."""
-    __slots__ = ("base", "preds", "typ", "kind", "cpreds", "reverse")
+    __slots__ = ("base", "preds", "typ", "kind", "cpreds", "reverse", "penv")
 
-    def __init__(self, base, preds, typ=None, kind="list", cpreds=()):
+    def __init__(self, base, preds, typ=None, kind="list", cpreds=(), penv=None):
         self.base, self.preds, self.typ, self.kind = base, list(preds), typ, kind
         self.reverse = None   # False / True: the result of a plain sorted(...) / sorted(..., reverse=True)
+        self.penv = dict(penv or {})   # id(pred node) -> {local name: constant value} the predicate was written with (a helper's locals)
         self.cpreds = list(cpreds)   # canonical text of each predicate at the moment it was added (objects by access path)
 
     def __eq__(self, o):
@@ -209,10 +225,11 @@ class DictV:
 
 class FuncV:
     """A function value the interpreter does not call: a lambda or a nested def (its AST node is kept)."""
-    __slots__ = ("node",)
+    __slots__ = ("node", "cenv")
 
-    def __init__(self, node):
+    def __init__(self, node, cenv=None):
         self.node = node
+        self.cenv = cenv   # the definer's locals, kept when the function travels to another frame (a closure handed to a helper)
 
     def __eq__(self, o):
         return isinstance(o, FuncV) and o.node is self.node
@@ -243,6 +260,7 @@ class SortedV:
 
 
 TRUE, FALSE, NONE = Const(True), Const(False), Const(None)
+_MISSING = object()
 
 
 # ------------------------------------------------------------------------------------------
@@ -499,6 +517,7 @@ class Interp:
         self.exc_in_try = exc_in_try
         self.enum_domain = enum_domain or {}  # enum class -> members to consider
         self.call_hook = call_hook
+        self.name_comprehensions = False   # (table extraction) `[f(x) for x in <unknown list>]` is named "list-of:<f(x[*])>"
         self.havoc_on_call = havoc_on_call
         self.integral = set(integral)  # symbols known to be integer-valued (besides len(...))
         self.log_reads = False
@@ -590,6 +609,20 @@ class Interp:
 
     # -- statements -----------------------------------------------------------------------
     def exec_stmt(self, s, st, fr):
+        if isinstance(s, ast.While) and not (isinstance(s.test, ast.Constant) and s.test.value is True) and not s.orelse:
+            # `while f(): body` with an in-package call in the condition: the call happens before *every* iteration, so it is the
+            # first statement of an endless loop -- `while True: if not f(): break; body`
+            calls = [c for c in self._calls_in(s) if self._resolve(c, st, fr)[0]]
+            if calls:
+                memo = self.__dict__.setdefault("_while_memo", {})
+                if id(s) not in memo:
+                    brk = ast.If(test=ast.UnaryOp(op=ast.Not(), operand=s.test), body=[ast.Break()], orelse=[])
+                    w = ast.While(test=ast.Constant(True), body=[brk] + list(s.body), orelse=[])
+                    ast.copy_location(w, s)
+                    ast.copy_location(brk, s)
+                    ast.fix_missing_locations(w)
+                    memo[id(s)] = (s, w)
+                s = memo[id(s)][1]
         # hoist in-package calls that the policy wants inlined
         pre = self._hoist_calls(s, st, fr)
         outs = []
@@ -668,7 +701,9 @@ class Interp:
                 return [bv.func], True
             if isinstance(bv, FuncV) and isinstance(bv.node, ast.FunctionDef):
                 from .loader import FuncInfo
-                return [FuncInfo(bv.node.name, bv.node, fr.func.cls, fr.func.module, parent=fr.func)], True
+                fi = FuncInfo(bv.node.name, bv.node, fr.func.cls, fr.func.module, parent=fr.func)
+                fi.cenv = bv.cenv
+                return [fi], True
         if (len(callees) != 1 or not resolved) and isinstance(f, ast.Attribute) and not any(isinstance(n, ast.Call) for n in ast.walk(f.value)):
             self._quiet += 1
             try:
@@ -709,6 +744,9 @@ class Interp:
         nfr = Frame(callee, self.types.ftypes(callee), fr.stack + ((fr.func.loc(call), callee.qualname),),
                     depth=fr.depth if getattr(callee, "parent", None) is not None else fr.depth + 1)
         env = dict(saved_env) if getattr(callee, "parent", None) is not None else {}   # a nested def sees the locals of its definer
+        foreign_closure = getattr(callee, "cenv", None) is not None
+        if foreign_closure:
+            env = dict(callee.cenv)   # ... also when it is called from a helper it was handed to
         for p in callee.params + callee.kwonly:
             if p in args:
                 env[p] = args[p]
@@ -719,6 +757,14 @@ class Interp:
         if callee.kwarg:
             env[callee.kwarg] = Unk("kwargs", ("dict", None, None))
             env["__kwargs__"] = ListV([Const(k) for k in args.get("__extra_kw__", [])])
+        if getattr(callee, "vararg", None):
+            # *args: the positional arguments beyond the named parameters, as a tuple
+            npos = len([p for p in callee.params if not (p == "self" and callee.cls and not unbound)])
+            extra_pos = [a0 for a0 in call.args[npos:]]
+            if any(isinstance(a0, ast.Starred) for a0 in call.args):
+                env[callee.vararg] = Unk("varargs", ("list", None))
+            else:
+                env[callee.vararg] = ListV([self.eval(a0, st, fr) for a0 in extra_pos], True, "tuple")
         st.env = env
         res = []
         # local containers handed to the callee are shared objects: what the callee does to its parameter (add / append /
@@ -744,7 +790,7 @@ class Interp:
             own -= nonloc
         for st1, ex in self.exec_block(callee.body(), st, nfr):
             back = {a: st1.env[p] for p, a in shared.items() if p in st1.env and st1.env[p] is not env0.get(p)}
-            if nested:
+            if nested and not foreign_closure:
                 # free variables of a nested def are the definer's locals: what the body did to them stays
                 for k, v in st1.env.items():
                     if k in saved_env and k not in own and v is not saved_env[k]:
@@ -785,6 +831,8 @@ class Interp:
                 continue
             if i < len(params):
                 v = self.eval(a, st, fr)
+                if isinstance(v, FuncV) and isinstance(v.node, (ast.FunctionDef, ast.Lambda)) and v.cenv is None and a is not None:
+                    v = FuncV(v.node, dict(st.env))   # a nested def / lambda handed on: it keeps seeing its definer's locals
                 r = self._ref_of(a, v, st, fr)
                 args[params[i]] = (r if r is not None and r.obj is not None else None) or v   # (references to the caller's locals do not cross frames)
         extra = []
@@ -835,7 +883,34 @@ class Interp:
             memo[id(s)] = (s, ast.copy_location(s2, s))
         return memo[id(s)][1]
 
+    def _comp_as_loop(self, s):
+        """(table extraction mode) `x = [f(a) for a in xs if c]` written as the loop it abbreviates, so that what f does is seen as
+        events of a loop over xs."""
+        v = s.value
+        if not (isinstance(s, ast.Assign) and len(s.targets) == 1 and isinstance(s.targets[0], ast.Name) and isinstance(v, ast.ListComp) and len(v.generators) == 1
+                and any(isinstance(n, ast.Call) for n in ast.walk(v.elt))):
+            return None
+        memo = self.__dict__.setdefault("_comploop_memo", {})
+        if id(s) not in memo:
+            g = v.generators[0]
+            name = s.targets[0].id
+            app = ast.Expr(value=ast.Call(func=ast.Attribute(value=ast.Name(id=name, ctx=ast.Load()), attr="append", ctx=ast.Load()), args=[v.elt], keywords=[]))
+            body = [app]
+            for c in reversed(g.ifs):
+                body = [ast.If(test=c, body=body, orelse=[])]
+            init = ast.Assign(targets=[ast.Name(id=name, ctx=ast.Store())], value=ast.List(elts=[], ctx=ast.Load()), type_comment=None)
+            lp = ast.For(target=g.target, iter=g.iter, body=body, orelse=[], type_comment=None)
+            for n in (init, lp):
+                ast.copy_location(n, s)
+                ast.fix_missing_locations(n)
+            memo[id(s)] = (s, [init, lp])
+        return memo[id(s)][1]
+
     def _exec_stmt(self, s, st, fr):
+        if self.name_comprehensions and isinstance(s, ast.Assign):
+            two = self._comp_as_loop(s)
+            if two is not None:
+                return self.exec_block(two, st, fr)
         if isinstance(s, (ast.Assign, ast.Return)) and isinstance(s.value, ast.Subscript):
             s = self._pair_select(s) or s
         # `x = A if C else B` / `return A if C else B` with an undecided C is the if-statement it abbreviates
@@ -927,6 +1002,27 @@ class Interp:
                                 outs.extend(self._exec_stmt(s, s2, fr))
                             return outs
             unpack = isinstance(s.value, (ast.Tuple, ast.List)) and any(isinstance(t, (ast.Tuple, ast.List)) for t in s.targets)
+            if unpack and len(s.targets) == 1 and isinstance(s.targets[0], (ast.Tuple, ast.List)) and len(s.targets[0].elts) == len(s.value.elts) \
+                    and not any(isinstance(x, ast.Starred) for x in list(s.targets[0].elts) + list(s.value.elts)) \
+                    and any(isinstance(t, ast.Name) for t in s.targets[0].elts):
+                # `a, b = x.p, x.q`: every right-hand side is evaluated first; a *local name* then denotes the very container it was
+                # given (like `a = x.p`), an attribute target receives the value
+                vals = []
+                for x in s.value.elts:
+                    self._no_refs = getattr(self, "_no_refs", 0) + 1
+                    try:
+                        v = self.eval(x, st, fr, effects=True)
+                    finally:
+                        self._no_refs -= 1
+                    vals.append((v, self._ref_of(x, v, st, fr)))
+                for t, (v, ref) in zip(s.targets[0].elts, vals):
+                    if isinstance(t, ast.Name) and ref is not None:
+                        st.env[t.id] = ref
+                        for k in [k for k in st.memo if k[0] == fr.uid and _mentions(k[1], t.id)]:
+                            del st.memo[k]
+                    else:
+                        self.assign(t, v, st, fr, s)
+                return [(st, None)]
             if unpack:
                 self._no_refs = getattr(self, "_no_refs", 0) + 1   # `a, b = (x.p, x.q)` copies the values of the right-hand side
             try:
@@ -1197,7 +1293,7 @@ class Interp:
                     for c in conjs:
                         if not (self.pred_reads(c, fr) & attrs):
                             preds.append((pn, c))
-                keep[n] = CollV(v.base, preds, v.typ, v.kind)
+                keep[n] = CollV(v.base, preds, v.typ, v.kind, penv=v.penv)
         return keep
 
     def _call_narrows(self, e, name, fr, depth=0):
@@ -1340,8 +1436,34 @@ class Interp:
             memo[lk] = (s, ast.copy_location(ast.For(target=s.target.elts[0], iter=it.args[0], body=pre + list(s.body), orelse=list(s.orelse), type_comment=None), s))
         return memo[lk][1]
 
+    def _zip_repeat_loop(self, s, st, fr):
+        """`for a, b in zip(A, itertools.repeat(v))` == `for a in A: b = v` (v is a constant or a name whose value has not changed)."""
+        it = s.iter
+        if not (isinstance(it, ast.Call) and isinstance(it.func, ast.Name) and it.func.id == "zip" and len(it.args) == 2 and not it.keywords
+                and isinstance(s.target, ast.Tuple) and len(s.target.elts) == 2 and all(isinstance(t, ast.Name) for t in s.target.elts)):
+            return None
+        self._quiet += 1
+        try:
+            vals = [self.eval(a, st, fr) for a in it.args]
+        finally:
+            self._quiet -= 1
+        reps = [i for i, v in enumerate(vals) if isinstance(v, RepeatV)]
+        if len(reps) != 1 or not isinstance(vals[reps[0]].val, (Const, EnumSet, Poly)):
+            return None
+        i = reps[0]
+        memo = self.__dict__.setdefault("_ziprep_memo", {})
+        key = (id(s), i, repr(vals[i].val))
+        if key not in memo:
+            pre = ast.Assign(targets=[ast.Name(id=s.target.elts[i].id, ctx=ast.Store())], value=vals[i].node, type_comment=None)
+            lp = ast.For(target=s.target.elts[1 - i], iter=it.args[1 - i], body=[pre] + list(s.body), orelse=list(s.orelse), type_comment=None)
+            ast.copy_location(lp, s)
+            ast.copy_location(pre, s)
+            ast.fix_missing_locations(lp)
+            memo[key] = (s, lp)
+        return memo[key][1]
+
     def exec_for(self, s, st, fr):
-        z = self._zip_map_loop(s, st, fr)
+        z = self._zip_map_loop(s, st, fr) or self._zip_repeat_loop(s, st, fr)
         if z is not None:
             return self.exec_for(z, st, fr)
         parts = self._chain_args(s.iter) or self._generator_parts(s.iter, st, fr)
@@ -1459,6 +1581,20 @@ class Interp:
             outs.append((after, None))
         return outs
 
+    @staticmethod
+    def _capture(cond, pname, st):
+        """Constant-valued locals a predicate mentions (a tuple of enum members bound in a helper ...): kept with the collection, so that
+        the predicate means the same when it is assumed in another frame."""
+        out = {}
+        for n in ast.walk(cond):
+            if isinstance(n, ast.Name) and n.id != pname and n.id in st.env:
+                v = st.env[n.id]
+                ok = isinstance(v, (Const, EnumSet)) or (isinstance(v, Poly) and v.is_const()) or \
+                    (isinstance(v, ListV) and v.kind in ("tuple", "list", "set") and all(isinstance(x, (Const, EnumSet)) or (isinstance(x, Poly) and x.is_const()) for x in v.items))
+                if ok:
+                    out[n.id] = v
+        return out
+
     def assume_elem(self, coll, var, st, fr, skip=()):
         """Make the element facts of a CollV hold for `var` in st (except the conjuncts listed in `skip`)."""
         skip_ids = {id(c) for _p, c in skip}
@@ -1466,6 +1602,25 @@ class Interp:
             saved = st.env.get(pname, None)
             had = pname in st.env
             st.env[pname] = var
+            cap = coll.penv.get(id(body)) or {}
+            shadow = {k: st.env.get(k, _MISSING) for k in cap}
+            st.env.update(cap)
+            try:
+                self._assume_pred(body, skip_ids, st, fr)
+            finally:
+                for k, v0 in shadow.items():
+                    if v0 is _MISSING:
+                        st.env.pop(k, None)
+                    else:
+                        st.env[k] = v0
+            if had:
+                st.env[pname] = saved
+            else:
+                st.env.pop(pname, None)
+        return
+
+    def _assume_pred(self, body, skip_ids, st, fr):
+        if True:
             if skip_ids:
                 conjs = body.values if isinstance(body, ast.BoolOp) and isinstance(body.op, ast.And) else [body]
                 for c in conjs:
@@ -1473,10 +1628,6 @@ class Interp:
                         self.assume(c, True, st, fr)
             else:
                 self.assume(body, True, st, fr)
-            if had:
-                st.env[pname] = saved
-            else:
-                st.env.pop(pname, None)
 
     @staticmethod
     def _elem_cls(et):
@@ -1557,7 +1708,80 @@ class Interp:
                 res.append((st0, ex))
         return res
 
+    def _iterator_loop(self, s, st, fr):
+        """`it = iter(xs)` ... `while (x := next(it, END)) is not END: body`  ==  `for x in xs: body` (the iterator is used nowhere
+        else in the loop).  -> the equivalent for-loop or None."""
+        t = s.test
+        if not (isinstance(t, ast.Compare) and len(t.ops) == 1 and isinstance(t.ops[0], ast.IsNot) and isinstance(t.left, ast.NamedExpr)
+                and isinstance(t.left.target, ast.Name) and isinstance(t.comparators[0], ast.Name)):
+            return None
+        c = t.left.value
+        if not (isinstance(c, ast.Call) and isinstance(c.func, ast.Name) and c.func.id == "next" and len(c.args) == 2 and not c.keywords
+                and isinstance(c.args[0], ast.Name) and isinstance(c.args[1], ast.Name) and c.args[1].id == t.comparators[0].id):
+            return None
+        iv = st.env.get(c.args[0].id)
+        if not isinstance(iv, IterV):
+            return None
+        if any(isinstance(n, ast.Name) and n.id == c.args[0].id for b in s.body + s.orelse for n in ast.walk(b)):
+            return None
+        self._quiet += 1
+        try:
+            now = self.eval(iv.src, st, fr)
+        finally:
+            self._quiet -= 1
+        if not (now is iv.val or _same(now, iv.val) or repr(now) == repr(iv.val)):
+            return None
+        memo = self.__dict__.setdefault("_iterloop_memo", {})
+        if id(s) not in memo:
+            memo[id(s)] = (s, ast.fix_missing_locations(ast.copy_location(
+                ast.For(target=ast.Name(id=t.left.target.id, ctx=ast.Store()), iter=iv.src, body=list(s.body), orelse=list(s.orelse), type_comment=None), s)))
+        return memo[id(s)][1]
+
+    def _index_loop(self, s, st, fr):
+        """`i = 0` ... `while i < len(xs): x = xs[i]; i += 1; body`  ==  `for x in xs: body` (i is used for nothing else and xs is not
+        rebound in the loop).  -> the equivalent for-loop or None."""
+        t = s.test
+        if not (isinstance(t, ast.Compare) and len(t.ops) == 1 and isinstance(t.ops[0], ast.Lt) and isinstance(t.left, ast.Name)
+                and isinstance(t.comparators[0], ast.Call) and isinstance(t.comparators[0].func, ast.Name) and t.comparators[0].func.id == "len"
+                and len(t.comparators[0].args) == 1 and isinstance(t.comparators[0].args[0], (ast.Name, ast.Attribute))) or s.orelse or len(s.body) < 2:
+            return None
+        i, xs = t.left.id, t.comparators[0].args[0]
+        iv = st.env.get(i)
+        if not (isinstance(iv, Poly) and iv.is_const() and iv.const_value() == 0):
+            return None
+        first = s.body[0]
+        if not (isinstance(first, ast.Assign) and len(first.targets) == 1 and isinstance(first.targets[0], ast.Name) and isinstance(first.value, ast.Subscript)
+                and ast.unparse(first.value.value) == ast.unparse(xs) and isinstance(first.value.slice, ast.Name) and first.value.slice.id == i):
+            return None
+
+        def is_inc(b):
+            return (isinstance(b, ast.AugAssign) and isinstance(b.target, ast.Name) and b.target.id == i and isinstance(b.op, ast.Add)
+                    and isinstance(b.value, ast.Constant) and b.value.value == 1) or \
+                (isinstance(b, ast.Assign) and len(b.targets) == 1 and isinstance(b.targets[0], ast.Name) and b.targets[0].id == i
+                 and ast.unparse(b.value).replace(" ", "") in (f"{i}+1", f"1+{i}"))
+        rest = list(s.body[1:])
+        if is_inc(rest[0]):
+            rest = rest[1:]
+        elif is_inc(rest[-1]) and not any(isinstance(n, ast.Continue) for b in rest for n in ast.walk(b)):
+            rest = rest[:-1]
+        else:
+            return None
+        x = first.targets[0].id
+        xs_names = {n.id for n in ast.walk(xs) if isinstance(n, ast.Name)}
+        for b in rest:
+            for n in ast.walk(b):
+                if isinstance(n, ast.Name) and (n.id == i or (n.id in xs_names and isinstance(n.ctx, ast.Store))):
+                    return None
+        memo = self.__dict__.setdefault("_indexloop_memo", {})
+        if id(s) not in memo:
+            lp = ast.For(target=ast.Name(id=x, ctx=ast.Store()), iter=xs, body=rest or [ast.Pass()], orelse=[], type_comment=None)
+            memo[id(s)] = (s, ast.fix_missing_locations(ast.copy_location(lp, s)))
+        return memo[id(s)][1]
+
     def exec_while(self, s, st, fr):
+        lp = self._iterator_loop(s, st, fr) or self._index_loop(s, st, fr)
+        if lp is not None:
+            return self.exec_for(lp, st, fr)
         if self.unroll_while > 0:
             active, done = [st], []
             for _i in range(self.unroll_while):
@@ -1995,6 +2219,10 @@ class Interp:
                 return mv
             if e.id in self.repo.functions and isinstance(e.ctx, ast.Load):
                 return FuncV(self.repo.functions[e.id].node)   # a module-level function used as a value (a sort key, a table entry)
+            if e.id in r.classes and isinstance(e.ctx, ast.Load):
+                cv = ClassV(e.id, None)
+                cv.cls = e.id
+                return cv
             return Unk(e.id, fr.ft.lookup(e.id, e))
         if isinstance(e, ast.Attribute):
             en = r.enum_of_member_expr(e)
@@ -2022,6 +2250,8 @@ class Interp:
             if (isinstance(base, (ListV, CollV, DictV)) or (isinstance(base, Unk) and base.typ and base.typ[0] in ("list", "set", "dict"))) \
                     and e.attr in MUTATORS and isinstance(e.value, (ast.Name, ast.Attribute)) and isinstance(e.ctx, ast.Load):
                 return BoundV(op=e.attr, ref=e.value)
+            if isinstance(base, DictV) and e.attr == "get" and isinstance(e.value, (ast.Name, ast.Attribute)) and isinstance(e.ctx, ast.Load):
+                return BoundV(op="get", ref=e.value)
             if isinstance(base, EnumSet) and base.single() is not None and e.attr in ("name", "value"):
                 if e.attr == "name":
                     return Const(base.single())
@@ -2156,7 +2386,12 @@ class Interp:
             lk = getattr(self, "log_kw", None)
             if lk and isinstance(e.value, ast.Name) and e.value.id == lk[0] and isinstance(e.slice, ast.Constant) and not self._quiet:
                 st.trace.append(KwRead(e.slice.value, e, fr.func, fr.stack))
-            tag = f"{self.path_of(base, ast.unparse(e.value))}[{ast.unparse(e.slice)}]"
+            key_txt = ast.unparse(e.slice)
+            if isinstance(e.slice, ast.Name):
+                kv0 = st.env.get(e.slice.id)
+                if isinstance(kv0, Const) and isinstance(kv0.v, str):
+                    key_txt = repr(kv0.v)   # `record[key]` with key a known string: named by the string
+            tag = f"{self.path_of(base, ast.unparse(e.value))}[{key_txt}]"
             typ = fr.ft.type_of(e)
             if typ is None and isinstance(base, Unk) and base.typ and base.typ[0] == "dict" and len(base.typ) > 2:
                 typ = base.typ[2]   # an untyped parameter holding a typed map: the value knows what its entries are
@@ -2209,7 +2444,24 @@ class Interp:
                 cp = list(coll.cpreds) if isinstance(coll, CollV) else []
                 for c in g.ifs:
                     cp.append(self.canon(c, st, fr))
-                return CollV(key, preds, typ or fr.ft.type_of(g.iter), cpreds=cp)
+                pe = dict(coll.penv) if isinstance(coll, CollV) else {}
+                for c in g.ifs:
+                    cap = self._capture(c, g.target.id, st)
+                    if cap:
+                        pe[id(c)] = cap
+                return CollV(key, preds, typ or fr.ft.type_of(g.iter), cpreds=cp, penv=pe)
+            if isinstance(g.target, ast.Name) and not g.ifs and type(coll) is Unk and self.name_comprehensions \
+                    and any(isinstance(n, ast.Call) for n in ast.walk(e.elt)):
+                saved = dict(st.env)
+                st.env[g.target.id] = Unk(f"{coll.tag}[*]")
+                self._quiet += 1
+                try:
+                    ev = self.eval(e.elt, st, fr)
+                finally:
+                    self._quiet -= 1
+                    st.env = saved
+                if isinstance(ev, Unk):
+                    return Unk(f"list-of:{ev.tag}", fr.ft.type_of(e))
             if isinstance(g.target, ast.Name) and not g.ifs and isinstance(e, ast.ListComp) and not g.is_async \
                     and not any(isinstance(n, (ast.Call, ast.NamedExpr, ast.Lambda)) for n in ast.walk(e.elt)):
                 m = MapV("comp~%d" % next(self._fresh), fr.ft.type_of(e))
@@ -2305,6 +2557,14 @@ class Interp:
                 fv = self.eval(f, st, fr) if (isinstance(f, ast.Subscript) or f.id in st.env or self._module_const(f.id, fr) is not None) else None
             finally:
                 self._quiet -= 1
+            if isinstance(fv, ClassV):
+                call2 = ast.copy_location(ast.Call(func=ast.copy_location(ast.Name(id=fv.cls, ctx=ast.Load()), e), args=list(e.args), keywords=list(e.keywords)), e)
+                saved_f = st.env.pop(fv.cls, None)
+                try:
+                    return self.eval_call(call2, st, fr, effects)
+                finally:
+                    if saved_f is not None:
+                        st.env[fv.cls] = saved_f
             if isinstance(fv, FuncV) and isinstance(fv.node, ast.Lambda):
                 return self._call_lambda(fv, e, st, fr, effects)
             if isinstance(fv, FuncV) and isinstance(fv.node, ast.FunctionDef) and ("__call_%d" % id(e)) not in st.env:
@@ -2313,6 +2573,10 @@ class Interp:
                     r = self._call_pure_def(fv.node, e, st, fr)
                 if r is not None:
                     return r
+            if isinstance(fv, BoundV) and fv.op == "get" and e.args and not e.keywords:
+                # `lookup = TABLE.get` ... `lookup(key)`: the dict method called through its alias
+                call2 = ast.copy_location(ast.Call(func=ast.copy_location(ast.Attribute(value=fv.ref, attr="get", ctx=ast.Load()), e), args=list(e.args), keywords=[]), e)
+                return self.eval_call(call2, st, fr, effects)
             if isinstance(fv, BoundV) and fv.op is not None:
                 args = [self.eval(a, st, fr, effects) for a in e.args]
                 if effects:
@@ -2334,6 +2598,40 @@ class Interp:
             if f.attr == "keys":
                 return ListV([k for k, _v, _r in dv.entries], True, "list")
             return ListV([ListV([k, v], True, "tuple") for (k, _v, _r), v in zip(dv.entries, vals)], True, "list")
+        if isinstance(f, ast.Attribute) and f.attr == "update" and isinstance(f.value, ast.Name) and isinstance(st.env.get(f.value.id), DictV) and len(e.args) <= 1:
+            # d.update(other) / d.update(k=v) with decidable keys: merged entry by entry
+            cur = st.env[f.value.id]
+            new_ents = []
+            ok = True
+            if e.args:
+                ov = self.eval(e.args[0], st, fr, effects)
+                if isinstance(ov, DictV):
+                    new_ents += [(k, (st.env.get(r0, v) if r0 else v), None) for k, v, r0 in ov.entries]
+                else:
+                    ok = False
+            for kw in e.keywords:
+                if kw.arg is None:
+                    dv2 = self.eval(kw.value, st, fr, effects)
+                    if isinstance(dv2, DictV):
+                        new_ents += [(k, v, None) for k, v, _r in dv2.entries]
+                    else:
+                        ok = False
+                else:
+                    new_ents.append((Const(kw.arg), self.eval(kw.value, st, fr, effects), None))
+            if ok:
+                ents = list(cur.entries)
+                for k, v, r0 in new_ents:
+                    rs = [self._equal(k, k2) for k2, _v, _r in ents]
+                    if any(x is True for x in rs):
+                        ents[rs.index(True)] = (ents[rs.index(True)][0], v, None)
+                    elif all(x is False for x in rs):
+                        ents.append((k, v, None))
+                    else:
+                        ok = False
+                        break
+            if ok:
+                st.env[f.value.id] = DictV(ents)
+                return NONE
         if isinstance(f, ast.Attribute) and f.attr in MUTATORS and isinstance(f.value, ast.Name) and isinstance(st.env.get(f.value.id), DictV) and f.attr != "setitem":
             # update / pop / clear ... on a local dict: its contents are no longer tracked
             for a0 in e.args:
@@ -2344,6 +2642,10 @@ class Interp:
             return Unk(f"{ast.unparse(f)[:40]}()")
         if isinstance(f, ast.Attribute) and f.attr == "get" and e.args and not e.keywords:
             dv = self.eval(f.value, st, fr)
+            if type(dv) is Unk and (dv.typ is None or dv.typ[0] == "dict"):
+                kv0 = self.eval(e.args[0], st, fr)
+                if isinstance(kv0, Const) and isinstance(kv0.v, str):
+                    return Unk(f"{dv.tag}[{kv0.v!r}]", dv.typ[2] if dv.typ and len(dv.typ) > 2 else None)
             if isinstance(dv, DictV):
                 ent = self._dict_entry(dv, self.eval(e.args[0], st, fr))
                 if ent is False:
@@ -2424,6 +2726,14 @@ class Interp:
             if all(isinstance(v, Poly) and v.is_const() for v in vals):
                 cs = [v.const_value() for v in vals]
                 return Poly.const(max(cs) if fname == "max" else min(cs))
+        if ast.unparse(f) in ("itertools.repeat", "repeat") and len(e.args) == 1 and not e.keywords:
+            rp = RepeatV(f"repeat~{next(self._fresh)}", None)
+            rp.node, rp.val = e.args[0], self.eval(e.args[0], st, fr, effects)
+            return rp
+        if fname == "iter" and len(e.args) == 1 and not e.keywords:
+            iv = IterV(f"iter~{next(self._fresh)}:{ast.unparse(e.args[0])[:40]}", None)
+            iv.src, iv.val = e.args[0], self.eval(e.args[0], st, fr, effects)
+            return iv
         if fname == "reversed" and len(e.args) == 1 and not e.keywords:
             rv = self._eval_iterable(e.args[0], st, fr)
             if isinstance(rv, ListV):
@@ -2491,7 +2801,7 @@ class Interp:
             revn = next((kw.value for kw in e.keywords if kw.arg == "reverse"), None)
             revv = self.eval(revn, st, fr) if revn is not None else FALSE
             if isinstance(base, CollV):
-                return CollV(base.base, base.preds, base.typ, "list", cpreds=base.cpreds)  # element facts survive a permutation
+                return CollV(base.base, base.preds, base.typ, "list", cpreds=base.cpreds, penv=base.penv)  # element facts survive a permutation
             if isinstance(base, ListV) and base.items and isinstance(keyv, FuncV) and isinstance(self._truth_of_value(revv), bool) and not self._quiet_sort_off():
                 # a known list and a key that evaluates to numbers (or tuples of numbers) for every item: sorted here (stable)
                 keys = []
@@ -2519,7 +2829,7 @@ class Interp:
         if fname in ("list", "tuple", "sorted", "set") and len(e.args) >= 1:
             inner = self._eval_iterable(e.args[0], st, fr)
             if isinstance(inner, CollV):
-                cv = CollV(inner.base, inner.preds, inner.typ, "set" if fname == "set" else "list", cpreds=inner.cpreds)
+                cv = CollV(inner.base, inner.preds, inner.typ, "set" if fname == "set" else "list", cpreds=inner.cpreds, penv=inner.penv)
                 if fname == "sorted" and all(kw.arg == "reverse" for kw in e.keywords):
                     cv.reverse = self._truth_of_value(self.eval(e.keywords[0].value, st, fr)) if e.keywords else False
                 elif fname in ("list", "tuple"):
@@ -2768,7 +3078,11 @@ class Interp:
                     preds = list(src.preds) if isinstance(src, CollV) else []
                     typ = src.typ if isinstance(src, (CollV, Unk)) else None
                     cp = (list(src.cpreds) if isinstance(src, CollV) else []) + [self.canon(lam.body, st, fr)]
-                    return CollV(base, preds + [(lam.args.args[0].arg, lam.body)], typ or fr.ft.type_of(e.args[1]), cpreds=cp)
+                    pe = dict(src.penv) if isinstance(src, CollV) else {}
+                    cap = self._capture(lam.body, lam.args.args[0].arg, st)
+                    if cap:
+                        pe[id(lam.body)] = cap
+                    return CollV(base, preds + [(lam.args.args[0].arg, lam.body)], typ or fr.ft.type_of(e.args[1]), cpreds=cp, penv=pe)
                 return Unk(ast.unparse(e))
         if isinstance(e, (ast.ListComp, ast.GeneratorExp, ast.SetComp)):
             return self._eval_comp(e, st, fr)
@@ -2933,7 +3247,7 @@ class Interp:
                             else:
                                 preds.append((pn, c))
                     if changed:
-                        st.env[n] = CollV(v.base, preds, v.typ, v.kind)
+                        st.env[n] = CollV(v.base, preds, v.typ, v.kind, penv=v.penv)
 
     def _enum_val(self, v):
         return {self.repo.enums[v.cls][m] for m in v.members}
@@ -3072,6 +3386,8 @@ class Interp:
         for x, y in ((a, b), (b, a)):
             if isinstance(x, Const) and isinstance(x.v, str) and (isinstance(y, (Poly, DictV, EnumSet)) or (isinstance(y, ListV) and y.fresh)):
                 return False   # a string never equals a number, an enum member or a container
+            if isinstance(x, Const) and x.v is None and isinstance(y, (FuncV, BoundV, ClassV, DictV, RepeatV, IterV)):
+                return False   # a function, a class, a dict is not None
         if isinstance(a, EnumSet) and isinstance(b, EnumSet):
             va, vb = self._enum_val(a), self._enum_val(b)
             if not (va & vb):
